@@ -114,7 +114,7 @@ func (g *G) wildExpr(d int) *m.E {
 		return m.EIdx(sub(), sub())
 	case 11:
 		// method call with arbitrary arguments
-		e := &m.E{K: "mcallx", S: pickS(g, "wmeth", []string{"Greet", "PtrName", "Sum", "Nothing", "Two", "Var", "Join", "Any", "Zero", "F64", "Flag", "Self", "unexported", "nope", "k0"}), A: []*m.E{sub()}}
+		e := &m.E{K: "mcallx", S: pickS(g, "wmeth", []string{"Greet", "PtrName", "Sum", "Nothing", "Two", "Var", "Join", "Tag", "Any", "Zero", "F64", "Flag", "Self", "unexported", "nope", "k0"}), A: []*m.E{sub()}}
 		for i, n := 0, g.intn("wma", 0, 3); i < n; i++ {
 			e.A = append(e.A, sub())
 		}
